@@ -4,12 +4,16 @@ case: {"doc": [node..], "filters": [html filter..]}   (node format: see harness/
 out:  {"m": hex of the model chain run on serialize(doc) as one chunk,
        "s": hex of serialize (editAll doc filters)  — the reference edit of Model/FilterDom.lean,
        "tags": ["thm-applies"] when the executable check `stepsOKB` of the hypotheses of theorem
-               Rio.C15.filters_compose_checked answers true for this case, else ["thm-not-applicable", whyNot htmlTokenize evalStandIn (vtOf htmlTokenize) ndoc fs]}
+               Rio.C15.filters_compose_checked answers true for this case, else ["thm-not-applicable", whyNot htmlTokenize evalStandIn (vtOf htmlTokenize) ndoc fs];
+               plus "thm-universal-applies" when the proved-sound recogniser `stepsSimpleB` (Proofs/FilterDomRec.lean) accepts the
+               case, i.e. the UNIVERSAL theorem Rio.C15.compose_universal_checked (no tokenizer hypothesis) covers it, else
+               "thm-universal-na:<first reason>"}
 -/
 import Drivers.Common
 import RioModel.Model.FilterJson
 import RioModel.Model.FilterDom
 import RioModel.Proofs.FilterDom
+import RioModel.Proofs.FilterDomRec
 open Lean Rio.Filter
 
 partial def node? (j : Json) : Except String Node := do
@@ -36,6 +40,31 @@ partial def normDoc : List Node → List Node
   | .verb a ma :: rest => .verb a ma :: normDoc rest
   | .el nm d at_ k cs :: rest => .el nm d at_ k (normDoc cs) :: normDoc rest
 
+/-- for the universal theorem: adjacent TEXT pieces merged (the grammar forbids two adjacent texts; a text next to a comment
+is fine), empty pieces dropped; the serialisation is the same -/
+partial def normDocU : List Node → List Node
+  | [] => []
+  | .verb a ma :: rest =>
+    if a.isEmpty then normDocU rest
+    else match rest with
+      | .verb b mb :: rest' =>
+        if b.isEmpty then normDocU (.verb a ma :: rest')
+        else if !a.contains 60 && !b.contains 60 then normDocU (.verb (a ++ b) (ma ++ mb) :: rest')
+        else .verb a ma :: normDocU rest
+      | _ => .verb a ma :: normDocU rest
+  | .el nm d at_ k cs :: rest => .el nm d at_ k (normDocU cs) :: normDocU rest
+
+/-- why `stepsSimpleB` fails: the first step that does not pass, and which conjunct -/
+def whyNotU (ev : Bytes → Bytes → Bool) : Nat → List Node → List BodyFilter → String
+  | _, _, [] => "ok"
+  | i, d, f :: fs =>
+    let step := if i = 0 then "" else s!"step{i}-"
+    if !simpleLB d then s!"{step}not-simple"
+    else if !decide (utf8Split (serializeList d) = some (serializeList d, [])) then s!"{step}utf8"
+    else if !inDomainB htmlTokenize vtU d f then s!"{step}domain"
+    else if !(fs.isEmpty || !(serializeList (editD (decOf ev) d f)).isEmpty) then s!"{step}empty-intermediate"
+    else whyNotU ev (i + 1) (editD (decOf ev) d f) fs
+
 /-- why `stepsOKB` fails: the first step that does not pass, and which conjunct -/
 def whyNot (tk : Tokenize) (ev : Bytes → Bytes → Bool) (vt : Bytes → List Tok) : List Node → List BodyFilter → String
   | _, [] => "ok"
@@ -50,8 +79,16 @@ def handle (j : Json) : Except String Json := do
   let doc ← (← J.arr? j "doc").toList.mapM node?
   let fs ← J.filters? j
   let input := serializeList doc
-  let chain : Chain Unit Unit := Chain.new noCodec J.lower fs []
+  -- optional response headers (the Content-Type gate of FilterBodyAction::new; no Content-Encoding in C15)
+  let hs ← J.headers? j
+  let gateOpen := htmlAllowed (headerValue J.lower Rio.Consts.filterHeaderContentType hs) &&
+    (headerValue J.lower Rio.Consts.filterHeaderContentEncoding hs).isNone
+  let chain : Chain Unit Unit := Chain.new noCodec J.lower fs hs
   let out := chain.run htmlTokenize evalStandIn noCodec [input]
+  -- theorems content_type_gate_open / content_type_gate_closed: with the gate closed the body passes unchanged
+  if !gateOpen then
+    let tags : List String := if out == input then ["thm-gate-closed"] else ["thm-gate-closed", "THM-RHS-DIFFERS"]
+    return Json.mkObj [("m", toJson (J.hex out)), ("s", toJson (J.hex input)), ("tags", toJson tags)]
   let spec := serializeList (editAll doc fs)
   -- does theorem Rio.C15.filters_compose_checked apply to this case?  (executable, proved-sound check of its
   -- hypotheses: domain of every filter on the document it sees, tokenizer(serialize d) = tokensOf d, ...)
@@ -61,6 +98,14 @@ def handle (j : Json) : Except String Json := do
   let thmRhs := serializeList (editAllD (decOf evalStandIn) ndoc fs)
   let tags : List String :=
     if applies then (if thmRhs == out && serializeList ndoc == input then ["thm-applies"] else ["thm-applies", "THM-RHS-DIFFERS"]) else ["thm-not-applicable", whyNot htmlTokenize evalStandIn (vtOf htmlTokenize) ndoc fs]
-  return Json.mkObj [("m", toJson (J.hex out)), ("s", toJson (J.hex spec)), ("tags", toJson tags)]
+  -- does the UNIVERSAL theorem Rio.C15.compose_universal_checked apply (recogniser of the `Simple` grammar, domain, UTF-8)?
+  let udoc := normDocU doc
+  let uapplies := stepsSimpleB evalStandIn udoc fs
+  let uRhs := serializeList (editAllD (decOf evalStandIn) udoc fs)
+  let utags : List String :=
+    if uapplies then (if uRhs == out && serializeList udoc == input then ["thm-universal-applies"] else ["thm-universal-applies", "THM-RHS-DIFFERS"])
+    else ["thm-universal-na:" ++ whyNotU evalStandIn 0 udoc fs]
+  let docSimple : List String := if simpleLB udoc then ["doc-simple"] else ["doc-not-simple"]
+  return Json.mkObj [("m", toJson (J.hex out)), ("s", toJson (J.hex spec)), ("tags", toJson (tags ++ utags ++ docSimple))]
 
 def main : IO Unit := Drv.run handle
